@@ -16,6 +16,7 @@ RULE = ("requests `add|sub|cadd|csub <form> <lhs> <rhs>` over Decimal/Decimal, D
         "Non-trivial = scales differ, or |result| or a re-scaled operand within 2 of 2^127")
 BUILDS = {"quick": [("dev", ()), ("release", ())],
           "thorough": [("dev", ()), ("release", ()), ("release", ("packed",)), ("o0-nochk", ())]}
+MODE_INDEPENDENT = True      # half of every batch runs under a non-default thread rounding mode
 REQUIRED_SITES = {}
 BUDGET = {"quick": 20, "thorough": 300}
 N_RANDOM = {"quick": 12000, "thorough": 40000}
